@@ -486,7 +486,10 @@ class Observer:
             def sc(x, g, l, u):
                 xs = self.pid(x)
                 raw = self.gval.get(xs)
-                args_ok = bool(raw is not None and np.array_equal(np.asarray(g), raw)
+                # (finite-difference modes: the derivative along a variable with lb == ub is not defined - the raw output
+                # of the differentiation routine is NaN there, the package reports 0 - and is not compared)
+                mov = (np.asarray(lb) < np.asarray(ub)) if self.jac_raw is None else np.ones(np.shape(lb), bool)
+                args_ok = bool(raw is not None and np.array_equal(np.asarray(g)[mov], np.asarray(raw)[mov])
                                and np.array_equal(l, lb) and np.array_equal(u, ub) and xs == start["x0"])
                 exc = self._maybe_fault("scaler")
                 if exc is not None:
